@@ -562,12 +562,9 @@ class Task(object):
 
         """
 
-        if not state:
-            states = rps.FINAL
-        if not isinstance(state, list):
-            states = [state]
-        else:
-            states = state
+        if   not state                  : states = rps.FINAL
+        elif not isinstance(state, list): states = [state]
+        else                            : states = state
 
 
         if self.state in rps.FINAL:
@@ -581,8 +578,13 @@ class Task(object):
             # raise RuntimeError("can't wait on a task in final state")
             return self.state
 
+        # like `TaskManager.wait_tasks()`, wait for the *earliest* of the given
+        # states: if the task is in any later state, the earliest was passed.
+        # Final states have the highest value and thus always end the wait.
+        check_val = min(rps._task_state_values[s] for s in states)
+
         start_wait = time.time()
-        while self.state not in states:
+        while rps._task_state_values[self.state] < check_val:
 
             time.sleep(0.1)
 
